@@ -603,6 +603,68 @@ def check_bad_histogram_configs(run, vsim, d):
         os.remove(sc)
 
 
+def check_extended_histograms(run, r, vsim, model, d, n):
+    """histograms of an extended-Lagrangian variable: by default the extended coordinate is binned, with
+    bypassExtendedLagrangian the actual value, and `colvars v v` gives the joint histogram (actual value, extended coordinate):
+    colvar_grid::request_actual_value / use_actual_value.  The extended coordinate is read from the values the module reports."""
+    for k in range(n):
+        w = r.choice([0.5, 0.25, 1.0]); nx = r.randint(3, 8); lo = V.dyadic(r, -2, 2, bits=2)
+        up = lo + nx * w
+        L = ["natoms 1", "temperature 300", "new", "config END", "colvar {", "  name v0", "  lowerBoundary %r" % lo, "  upperBoundary %r" % up,
+             "  width %r" % w, "  extendedLagrangian on", "  extendedFluctuation %r" % (w / 2), "  extendedTimeConstant 50",
+             "  distanceZ {", "    main { atomNumbers 1 }", "    ref { dummyAtom (0,0,0) }", "    axis (0,0,1)", "  }", "}",
+             "histogram {", "  name h", "  colvars v0 v0", "}",
+             "histogram {", "  name hb", "  colvars v0", "  bypassExtendedLagrangian on", "}",
+             "histogram {", "  name he", "  colvars v0", "}", "END", "show atomf 0 energy 0 bias 0"]
+        zs = []
+        for s_ in range(r.randint(5, 10)):
+            q = r.random()
+            z = lo + r.randint(-1, nx + 1) * w if q < 0.3 else (lo - r.randint(1, 7) * w / 8 if q < 0.4 else lo + r.randint(0, 8 * nx - 1) * w / 8 + w / 16)
+            zs.append(z)
+            L += ["pos 1 0 0 %s" % V.hexf(z), "step"]
+        sf = os.path.join(d, "ext%d.state" % k)
+        L.append("save text %s" % sf)
+        scn = "\n".join(L) + "\n"
+        sc = os.path.join(d, "ext%d.scn" % k)
+        open(sc, "w").write(scn)
+        rc, o, e = V.sh([vsim, sc], cwd=d, timeout=120)
+        run.count("exthist%d" % k, True)
+        run.dist("hist:extended")
+        ext = [float.fromhex(l.split()[2]) for l in o.split("\n") if l.startswith("CV v0 ")]
+        if "CONFIG err=ok ncv=1 nbias=3" not in o or len(ext) != len(zs) or not os.path.exists(sf):
+            run.mismatch("hist:extended:run", {"scenario": scn}, o[-300:], "three histograms configured, one value per step")
+            continue
+        def b(x):
+            q = (Fr(x) - Fr(lo)) / Fr(w)
+            return q.numerator // q.denominator
+        eb = [0.0] * nx; ee = [0.0] * nx; ej = [0.0] * (nx * nx)
+        for t in range(1, len(zs)):          # step 0 is not eligible
+            ia, ie = b(zs[t]), b(ext[t])
+            if 0 <= ia < nx:
+                eb[ia] += 1
+            if 0 <= ie < nx:
+                ee[ie] += 1
+            if 0 <= ia < nx and 0 <= ie < nx:
+                ej[ia * nx + ie] += 1
+        got = {nm: parse_hist_state(sf, nm) for nm in ("h", "hb", "he")}
+        for nm, exp_, what in (("hb", eb, "bypassExtendedLagrangian: the actual values %s" % zs[1:]), ("he", ee, "the extended coordinate %s" % ext[1:]),
+                               ("h", ej, "`colvars v0 v0`: (actual value, extended coordinate)")):
+            if got[nm] != exp_:
+                run.violation("hist:extended:" + nm, "histogram of an extended-Lagrangian variable (%s): counts %s, the exact histogram is %s" % (what, got[nm], exp_),
+                              {"kind": "hist", "scenario": scn, "expected": exp_, "got": got[nm]})
+        # the model on the same samples (joint histogram: two values per sample)
+        parts = ["HIST", "0", "0", "2", V.hexf(lo), V.hexf(lo), V.hexf(w), V.hexf(w), str(nx), str(nx), str(len(zs))]
+        for t in range(len(zs)):
+            parts += [str(t), "0", "1", V.hexf(zs[t]), V.hexf(ext[t]), V.hexf(1.0)]
+        rcm, mo, em = V.run_lines(model, [" ".join(parts)])
+        mv = [float.fromhex(t) for t in mo[0].split()] if mo else None
+        if mv != got["h"]:
+            run.mismatch("hist:extended:h", {"scenario": scn}, got["h"], mv)
+        for f in (sf, sc):
+            if os.path.exists(f):
+                os.remove(f)
+
+
 def check_hist_state_other_grid(run, vsim, d):
     """a histogram state (raw counts, no grid parameters) loaded by a job whose grid legally differs: more or fewer bins must be
     an error; the same number of bins on other boundaries cannot be noticed by the reader (recorded finding)"""
@@ -898,6 +960,7 @@ def check(run):
     check_meta_states(run, V.rng("C15meta"), vsim, d, 9 if quick else 90)
     check_bad_histogram_configs(run, vsim, d)
     check_hist_state_other_grid(run, vsim, d)
+    check_extended_histograms(run, V.rng("C15ext"), vsim, model, d, 4 if quick else 60)
     if check_vector_histogram(run, vsim, d):
         check_vector_scenarios(run, V.rng("C15vec"), vsim, model, d, 30 if quick else 400)
     run.cov["correspondence"].update({"unit_cases": len(cases), "hist_scenarios": len(hcases)})
